@@ -26,7 +26,7 @@ if [ $# -gt 0 ]; then
   echo "== existing tests (mutated): $*"; /venv/bin/python -m pytest -q -p no:cacheprovider "$@" -q 2>&1 | tail -2
 fi
 echo "== check $prop (mutated)"
-(cd /verif && PYTHONPATH="$wt/src" timeout 3600 ./check $prop --tier quick --no-build > /tmp/try_${prop}_${n}.log 2>&1; echo "check exit=$?"; grep -c '^VIOLATION' /tmp/try_${prop}_${n}.log; grep -A6 'violations in' /tmp/try_${prop}_${n}.log | cut -c1-220 | head -8)
+(cd /verif && VERIF_EVIDENCE_DIR=/tmp/verif-evidence-mutated PYTHONPATH="$wt/src" timeout 3600 ./check $prop --tier quick --no-build > /tmp/try_${prop}_${n}.log 2>&1; echo "check exit=$?"; grep -c '^VIOLATION' /tmp/try_${prop}_${n}.log; grep -A6 'violations in' /tmp/try_${prop}_${n}.log | cut -c1-220 | head -8)
 if [ -n "$cfile" ]; then
   cp /tmp/cfile.keep.$$ "$cfile"; rm -f /tmp/cfile.keep.$$
   build "$cfile"
